@@ -118,6 +118,35 @@ def impl(api, meth, u, dx, lam, z, samples=(2, 2, 2, 2), aperture=1., zero_paddi
     return np.asarray(W.propagate_beam(np.asarray(u, dtype=np.complex128), k, z, dx, lam, N_METHODS[meth]), dtype=np.complex128)
 
 
+T_ALL = ['Incoherent Angular Spectrum', 'Angular Spectrum', 'Bandlimited Angular Spectrum', 'Impulse Response Fresnel', 'Seperable Impulse Response Fresnel',
+         'Transfer Function Fresnel', 'Fraunhofer']
+N_ALL = ['Angular Spectrum', 'Bandlimited Angular Spectrum', 'Bandextended Angular Spectrum', 'Transfer Function Fresnel', 'Impulse Response Fresnel',
+         'Fraunhofer', 'Fraunhofer Inverse']
+
+
+def other_models_first(api, meth, u, dx, lam, z, samples=(2, 2, 2, 2), zero_padding=(False, False, False)):
+    """a user comparing imaging models of ONE setup computes the others first: every other propagation type the API offers is called with the very same
+    field, sampling, wavelength, distance and padding (results discarded, failures ignored); returns how many calls returned"""
+    k = 2 * math.pi / lam
+    done = 0
+    mine = (T_METHODS if api == 'torch' else N_METHODS).get(meth, meth)
+    for name in (T_ALL if api == 'torch' else N_ALL):
+        if name == mine:
+            continue
+        try:
+            if api == 'torch':
+                import odak.learn.wave as W
+                W.propagate_beam(torch.from_numpy(np.asarray(u, dtype=np.complex128)), k, z, dx, lam, propagation_type=name,
+                                 zero_padding=list(zero_padding), aperture=1., samples=list(samples))
+            else:
+                import odak.wave as W
+                W.propagate_beam(np.asarray(u, dtype=np.complex128), k, z, dx, lam, name)
+            done += 1
+        except (Exception, SystemExit):
+            pass
+    return done
+
+
 def energy(u):
     return float(np.sum(np.abs(u) ** 2))
 
